@@ -40,6 +40,11 @@ CHECKS = {
             "sequences that flip between before and after; the monitor sees which invariants ran, on which object, in which construction "
             "phase, and whether the member body ran.",
             "Executions produced only; silent zones (slot wrappers of object, evaluation after a raising body, non-DBC subclasses) not generated.", "3/C03"),
+    "C04": ("exploration", "runtime monitoring: verdicts of calls on instances of every class of generated inheritance DAGs vs. a DNF/CNF reference over the declaration",
+            "All DAG shapes up to 3 classes (thorough: all 4-class shapes) x member kinds x per-class contract placement x invariants, "
+            "foreign decorators, metaclass-attribute names, constructor programs and rejection programs; every call is judged by whether "
+            "the body ran and whose error surfaced, class creation by its exception.",
+            "Executions produced only; evaluation order is C16's business; snapshots along two diamond paths are a silent zone.", "3/C04"),
     "C05": ("exploration", "runtime monitoring: identity of objects received by probes vs. the body and vs. inspect.signature().bind",
             "Bounded-exhaustive: all signatures up to 4 (thorough 5) named parameters x all call shapes Python accepts, plus sampled wide "
             "signatures; every probe (precondition, snapshot, postcondition, error factory) logs the objects it received, compared by "
